@@ -10,7 +10,7 @@ one() {
   if ! (cd "$SCR" && patch -p1 -s < "$p"); then echo "SKIP $(basename $p) (does not apply)"; rm -rf "$SCR"; return; fi
   bad=""; det=""
   for i in $(seq -w 1 20); do
-    out=$("$DIR/check" C$i --repo "$SCR" --no-evidence --no-fixture 2>&1)
+    out=$("${CHECK:-$DIR/check}" C$i --repo "$SCR" --no-evidence --no-fixture 2>&1)
     if [ $? -ne 0 ]; then bad="$bad C$i"; det="$det$(echo "$out" | grep -E "rule=|BROKEN|extraction" | head -2 | cut -c1-220)"$'\n'; fi
   done
   if [ -n "$bad" ]; then
